@@ -4,8 +4,8 @@
 report them) and BENIGN variants (behaviour-preserving edits; the check must stay silent).
 Variants are textual edits applied to the *current* source through the loader overlay --
 nothing is written to disk and nothing is executed. A surviving mutant is a weakness of the
-checker and is printed; an alarm on a benign variant makes the whole run fail with exit 2
-(the checker is wrong, not the code). Edits whose anchor text is absent from the current tree
+checker and is printed; an alarm on a benign variant is printed as SELFTEST-WARNING and recorded in
+the evidence (the checker is wrong, not the code) -- neither changes the verdict on the tree. Edits whose anchor text is absent from the current tree
 (because the tree has changed) are skipped and counted as such.
 """
 from __future__ import annotations
@@ -89,6 +89,7 @@ def _one(args):
         chk = Check(pid, "quick", quiet=True)
         try:
             mod.run(project, chk)
+            chk.raise_unmet_floors()
         except AnalysisError:
             if not chk.split_findings()[0]:
                 raise
